@@ -646,6 +646,15 @@ FILTERS = [
     ("J if 'action_type' in J else SKIP", lambda J: "action_type" not in J, lambda J: J),
     ("SKIP", lambda J: True, lambda J: None),
     ("J['task_level'] if len(J['task_level']) > 1 else SKIP", lambda J: len(J["task_level"]) <= 1, lambda J: J["task_level"]),
+    # expressions that change the decoded message in place and hand the same object back (redaction, enrichment)
+    ("J.pop('task_uuid', None) and J or J", lambda J: False, lambda J: (J.pop("task_uuid", None), J)[1]),
+    ("J.update(host='h1', n=len(J)) or J", lambda J: False, lambda J: (J.update(host="h1", n=len(J)), J)[1]),
+    ("J.setdefault('seen', 1) and J", lambda J: False, lambda J: (J.setdefault("seen", 1), J)[1]),
+    ("J.__setitem__('x', [J.get('x')]) or J", lambda J: False, lambda J: (J.__setitem__("x", [J.get("x")]), J)[1]),
+    ("J.__delitem__('timestamp') or J", lambda J: False, lambda J: (J.__delitem__("timestamp"), J)[1]),
+    ("[J.pop(k) for k in list(J) if k not in ('task_uuid', 'task_level')] and J or J", lambda J: False,
+     lambda J: {k: v for k, v in J.items() if k in ("task_uuid", "task_level")}),
+    ("(J.update(kept=True) or J) if 'action_type' in J else SKIP", lambda J: "action_type" not in J, lambda J: dict(J, kept=True)),
 ]
 
 
